@@ -109,6 +109,9 @@ def _occurrences(num):
 def prime(classes, schema):
     """use every class once (metadata, map entry classes, defaults are created lazily on first use), and let it see every
     field number with every wire type (fitting or not)"""
+    for ename in schema.get("enums", {}):
+        for n in (99, 7, -7, 2, 3):          # numbers an enum may not define
+            classes[ename].try_value(n)
     for ty, fields in schema["types"].items():
         cls = classes[ty]
         m = cls()
@@ -133,8 +136,23 @@ def prime(classes, schema):
                 cls().parse(bytes(cls(**{py(f): [classes[f["msg"]]()]})))
 
 
+def _decoy_reads_all_keys(schema):
+    """a message class that has none of the schema's fields is handed documents with all of their keys (it ignores them):
+    what the library remembers about a JSON key must be remembered per class"""
+    import betterproto.casing as casing
+    Decoy = dataclasses.make_dataclass("Decoy", [("zz_decoy", str, betterproto.string_field(1))], bases=(betterproto.Message,), eq=False, repr=False)
+    keys = set()
+    for fields in schema["types"].values():
+        for f in fields:
+            keys |= {f["name"], py(f), py(f).rstrip("_"), casing.camel_case(py(f)).rstrip("_")}
+    doc = {k: 1 for k in sorted(keys)}
+    Decoy().from_dict(doc)
+    Decoy.from_dict(doc)
+
+
 def make_bp(schema, modname=None, twin=True):
     if twin:
+        _decoy_reads_all_keys(schema)
         for ts in (twin_schema(schema), card_twin_schema(schema)):
             prime(make_bp(ts, twin=False), ts)
     modname = modname or "verif_dyn_%d" % next(_counter)
@@ -302,13 +320,19 @@ def obs_bp_single(schema, f, kind, v):
     if not _typed(kind, v):
         raise ObsError("field %s (%s) holds %r" % (f["name"], kind, type(v).__name__))
     if kind == "enum":
+        if isinstance(v, betterproto.Enum) and (type(v).__name__ != f["enum"] or _MODULE_OF.get("cur") not in (None, type(v).__module__)):
+            raise ObsError("field %s (enum %s) holds a member of %s.%s" % (f["name"], f["enum"], type(v).__module__, type(v).__name__))
         return av.aint(int(v))
     return scalar_aval(kind, v)
+
+
+_MODULE_OF = {}
 
 
 def obs_bp(schema, m, ty):
     """public observation of a betterproto message: values, oneof selection, None-ness, nested presence"""
     out = {}
+    _MODULE_OF["cur"] = type(m).__module__
     for f in schema["types"][ty]:
         k, name, card = f["kind"], f["name"], f["card"]
         if card == "oneof":
@@ -550,6 +574,8 @@ def _obs_ref_single(schema, f, kind, v):
     if kind == "wrap":
         return {"k": "wrapv", "v": _obs_ref_single(schema, f, f["vkind"], v.value)}
     if kind == "enum":
+        if isinstance(v, betterproto.Enum) and (type(v).__name__ != f["enum"] or _MODULE_OF.get("cur") not in (None, type(v).__module__)):
+            raise ObsError("field %s (enum %s) holds a member of %s.%s" % (f["name"], f["enum"], type(v).__module__, type(v).__name__))
         return av.aint(int(v))
     return scalar_aval(kind, v)
 
